@@ -10,7 +10,7 @@ LEVEL = 'other'
 TECHNIQUE = ('solver-decided local lemmas on the real code (rustc MIR -> integer SMT, z3 5.1): every operation that moves tokens or creates a claim rounds against '
              'the actor by comparison with the exact rational amount; the composition of these lemmas over unbounded histories and position sets is a written '
              'potential-function argument, not a solver verdict')
-FUNCTIONS = ['math::swap_math::compute_swap', 'manager::swap_manager::calculate_fees', 'manager::liquidity_manager::calculate_liquidity_token_deltas',
+FUNCTIONS = ['instructions::collect_fees::handler', 'instructions::v2::collect_fees::handler', 'instructions::collect_protocol_fees::handler', 'instructions::v2::collect_protocol_fees::handler', 'math::swap_math::compute_swap', 'manager::swap_manager::calculate_fees', 'manager::liquidity_manager::calculate_liquidity_token_deltas',
              'pinocchio::ported::manager_liquidity_manager::pino_calculate_liquidity_token_deltas', 'math::bit_math::checked_mul_shift_right_round_up_if',
              'manager::swap_manager::swap (loop accounting, via C03)']
 BOUNDS = ['one operation from an arbitrary state (inductive step); all u64 amounts, all u128 liquidity, all in-bound prices',
@@ -131,7 +131,10 @@ def run(ctx):
     tasks += [t for t in c02.leaf_tasks() if t[0] in ('leaf:mul_shift_right', 'leaf:delta_a', 'leaf:delta_b')]
     # O7: the swap loop hands every step's amounts and fee split on unchanged (ghost accounting I5/P5, wiring W0-W5: fee split on the step's liquidity, crossing with the
     # growth updated so far) — Floyd verification of swap_manager::swap shared with C03
-    from props import c03
+    from props import c03, hm, c06
     tasks += [c03.config_task(ei, ab, 'explicit', 0) for ei in (True, False) for ab in (True, False)]
+    # O8: the payout handlers move exactly the owed amounts out of the pool's vaults and reset them (handler mode)
+    tasks += [('O8:collect_fees', hm.collect_fees_task(False)), ('O8:collect_fees_v2', hm.collect_fees_task(True)),
+              ('O8:collect_protocol_fees', c06.collect_protocol_fees_task(False)), ('O8:collect_protocol_fees_v2', c06.collect_protocol_fees_task(True))]
     ctx.parallel(tasks, max_procs=8)
     ctx.run_kani(['c01.rs'])
